@@ -15,7 +15,7 @@ def run(ctx):
             ctx.check_coverage(r0, ["Deliver", "DeliverDup", "DeliverForged", "DeliverEarly"])
             # every target map over the key universe, every delivery order, duplicates and unrequested payloads anywhere
             ctx.model_check("trie", "MC_StateSync", "MC_StateSync.cfg", timeout=ctx.pick(900, 3000),
-                            constants={"Vals": "{1, 2}"})
+                            constants={"Vals": "{1, 3}"})
             if not ctx.quick():
                 ctx.model_check("trie", "MC_StateSync", "MC_StateSync_6.cfg", timeout=3000)
             ctx.exhaustive = False  # TLC stage exhaustive; the replayed behaviours are random walks
